@@ -3,14 +3,15 @@
 # Runs the named checks against a seeded change WITHOUT touching /repo or /verif: a scratch worktree of /repo HEAD gets
 # the patch, a scratch copy of /verif (specs, harness, known findings) is pointed at it, and both are removed afterwards.
 # Prints one line per check: "<mutant> <property> <tier> exit=<code> <first VIOLATION line and what / last line>".
-d="$(cd "$1" && pwd)"; tier="$2"; shift 2
-[ -f "$d/patch.diff" ] || { echo "no patch in $d"; exit 2; }
+# <seeded-dir> = "none": the unchanged tree (an isolated run of a check that leaves /verif free for editing)
+if [ "$1" = none ]; then d=none; else d="$(cd "$1" && pwd)"; fi; tier="$2"; shift 2
+[ "$d" = none ] || [ -f "$d/patch.diff" ] || { echo "no patch in $d"; exit 2; }
 export GOFLAGS=-mod=mod GOPROXY=off GOSUMDB=off GOTOOLCHAIN=local
 S=$(mktemp -d /tmp/iso.XXXXXX)
 cleanup() { git -C /repo worktree remove --force "$S/repo" 2>/dev/null; rm -rf "$S"; git -C /repo worktree prune; }
 trap cleanup EXIT
 git -C /repo worktree add -q --detach "$S/repo" HEAD || exit 2
-git -C "$S/repo" apply "$d/patch.diff" || { echo "$(basename $d): patch does not apply"; exit 2; }
+[ "$d" = none ] || git -C "$S/repo" apply "$d/patch.diff" || { echo "$(basename $d): patch does not apply"; exit 2; }
 mkdir -p "$S/verif" && (cd /verif && tar cf - --exclude=./bin --exclude=./replays --exclude=./.git --exclude=./seeded --exclude=./evidence .) | (cd "$S/verif" && tar xf -)
 mkdir -p "$S/verif/bin" "$S/verif/replays" "$S/verif/evidence"
 sed -i "s|=> /repo/|=> $S/repo/|" "$S/verif/harness/go.mod"
